@@ -2,6 +2,7 @@
 from .. import catalogue, shapes, sym
 from ..spec import specmsg as sm
 
+WARMUP = True  # a concrete first use of the harness before each path (vf/explore.py: WarmEnv)
 PROPERTY = "C01"
 
 
